@@ -29,4 +29,20 @@ timeout -k 10 "$limit" ./target/debug/dsverif check "$id" --tier "$tier"
 rc=$?
 if [ $rc -eq 124 ] || [ $rc -eq 137 ]; then echo "INCONCLUSIVE property=$id: watchdog ($limit s)"; exit 2; fi
 if [ $rc -gt 2 ]; then echo "INCONCLUSIVE property=$id: checker terminated abnormally (status $rc)"; exit 2; fi
+# thorough tier of the "all inputs" properties: an additional coverage-guided campaign over the same generators and
+# oracle (the claim rests on the proptest run above; a campaign that cannot be built or run is reported, not fatal)
+if [ $rc -eq 0 ] && [ "$tier" = thorough ] && [ -z "$VERIF_NO_LIBFUZZER" ]; then
+  case "$id" in
+    C01) camp="lines scripts" ;;
+    C02) camp="direct text" ;;
+    C08) camp="text planted" ;;
+    *) camp="" ;;
+  esac
+  for sec in $camp; do
+    "$here/fuzz.sh" "$id" "$sec" "${VERIF_FUZZ_SECONDS:-120}"
+    frc=$?
+    if [ $frc -eq 1 ]; then exit 1; fi
+    if [ $frc -ne 0 ]; then echo "NOTE property=$id: libFuzzer campaign for section $sec was inconclusive (proptest result stands)"; fi
+  done
+fi
 exit $rc
